@@ -1,6 +1,7 @@
 package props
 
 import (
+	"context"
 	"encoding/json"
 	"fmt"
 	"math"
@@ -9,6 +10,7 @@ import (
 	"strings"
 	"testing"
 
+	"github.com/aundis/formula"
 	"github.com/ericlagergren/decimal"
 	"pgregory.net/rapid"
 
@@ -489,6 +491,43 @@ func checkEntry(c entryCase) string {
 	if b, ok := arr[3].(bool); !ok || !b {
 		return fmt.Sprintf("%s field x=%s: x == %s is %s", c.Kind, printed, lit, obs.Show(arr[3]))
 	}
+	// the same value supplied through the other entry points: SetThisValue (on a runner with a map and on one
+	// without), a struct field, a typed map, a host function result
+	for way := 0; way < 4; way++ {
+		r := formula.NewRunner()
+		expr := "[x, x === " + lit + "]"
+		switch way {
+		case 0:
+			r.SetThis(map[string]interface{}{"other": 1})
+			r.SetThisValue("x", val)
+		case 1:
+			r.SetThisValue("x", val)
+		case 2:
+			switch v := val.(type) {
+			case float64:
+				r.SetThis(map[string]interface{}{"st": struct{ X float64 }{v}, "tm": map[string]float64{"x": v}})
+			case int64:
+				r.SetThis(map[string]interface{}{"st": struct{ X int64 }{v}, "tm": map[string]int64{"x": v}})
+			case int:
+				r.SetThis(map[string]interface{}{"st": struct{ X int }{v}, "tm": map[string]int{"x": v}})
+			default:
+				continue
+			}
+			expr = "[st.X, tm.x === " + lit + "]"
+		case 3:
+			v := val
+			r.SetThis(map[string]interface{}{"get": func() (interface{}, error) { return v, nil }})
+			expr = "[get(), get() === " + lit + "]"
+		}
+		o := obs.Eval(r, context.Background(), obs.Parse([]byte(expr)).Src.Expression)
+		a2, ok := o.Val.([]interface{})
+		if o.Panic != nil || o.Err != nil || !ok || len(a2) != 2 {
+			return fmt.Sprintf("%s with %s(%s) supplied through %s -> %s", expr, c.Kind, printed, []string{"SetThisValue", "SetThisValue on a runner without a map", "a struct field / typed map", "a host function result"}[way], o)
+		}
+		if got, isNum := obs.Rat(a2[0]); !isNum || got.Cmp(want) != 0 || a2[1] != true {
+			return fmt.Sprintf("%s data value %s supplied through %s enters as %s (=== literal: %v), it prints as %s", c.Kind, printed, []string{"SetThisValue", "SetThisValue on a runner without a map", "a struct field / typed map", "a host function result"}[way], obs.Show(a2[0]), a2[1], printed)
+		}
+	}
 	if d, ok := obs.Rat(arr[4]); !ok || d.Sign() != 0 {
 		// x - literal is exact when both have <= 34 digits (always true here: float64 shortest form has <=17 digits, int64 <= 19)
 		return fmt.Sprintf("%s field x=%s: x - %s = %s, want 0", c.Kind, printed, lit, obs.Show(arr[4]))
@@ -498,7 +537,7 @@ func checkEntry(c entryCase) string {
 
 // TestC04Entry: Go float64 / int / int64 data values enter with exactly the value they print as.
 func TestC04Entry(t *testing.T) {
-	run := h.Begin("C04", "entry", "rapid + boundaries: float64 data values (uniform finite bit patterns, values without a short binary form such as 0.1 and 30.749999000000003, integers up to 2^63 stored in floats, subnormals, max), int and int64 data values (uniform 64-bit, +-2^53+-1, MinInt64, MaxInt64, powers of ten), read as a top-level field and through a nested map; oracle: the element equals the shortest round-trip decimal (float) / the integer exactly, 'x === literal', 'x == literal' and 'x - literal == 0'; non-trivial: |value| > 2^53 or a float with >= 15 significant digits; distinct by (kind, bits)")
+	run := h.Begin("C04", "entry", "rapid + boundaries: float64 data values (uniform finite bit patterns, values without a short binary form such as 0.1 and 30.749999000000003, integers up to 2^63 stored in floats, subnormals, max), int and int64 data values (uniform 64-bit, +-2^53+-1, MinInt64, MaxInt64, powers of ten), read as a top-level field and through a nested map, and supplied through SetThisValue (with and without a map), a struct field, a typed map and a host function result; oracle: the element equals the shortest round-trip decimal (float) / the integer exactly, 'x === literal', 'x == literal' and 'x - literal == 0'; non-trivial: |value| > 2^53 or a float with >= 15 significant digits; distinct by (kind, bits)")
 	defer run.End(t)
 	var fixed []entryCase
 	for _, f := range []float64{0.1, 0.2, 0.3, 30.749999000000003, 1e22, 1e23, 9007199254740993, 9223372036854775807, 1.7976931348623157e308, 5e-324, 2.2250738585072014e-308, 123456789.12345679, -0.1, 1e-7, 0.000001, 1e21, 4.35, 0.57, 1.005, -0.0} {
